@@ -20,6 +20,7 @@ import (
 	"errors"
 	"fmt"
 	"os"
+	"strings"
 )
 
 import (
@@ -127,6 +128,12 @@ func HostTableConfCheck(conf HostTableConf) error {
 	return nil
 }
 
+// hostnameNormalize returns the form of hostname used in host matching:
+// lower case, without one trailing dot.
+func hostnameNormalize(hostname string) string {
+	return strings.TrimSuffix(strings.ToLower(hostname), ".")
+}
+
 // HostRuleConfLoad loads config of host table from file.
 func HostRuleConfLoad(filename string) (HostConf, error) {
 	var conf HostConf
@@ -138,12 +145,17 @@ func HostRuleConfLoad(filename string) (HostConf, error) {
 
 	// convert HostTagToHost to Host2HostTag
 	host2HostTag := make(Host2HostTag)
+	// hostnames are matched case-insensitively with one trailing dot ignored,
+	// so duplicates are checked in normalized form
+	normalizedHosts := make(map[string]bool)
 
 	for hostTag, hostnameList := range *config.Hosts {
 		for _, hostName := range *hostnameList {
-			if host2HostTag[hostName] != "" {
+			normalizedHost := hostnameNormalize(hostName)
+			if normalizedHosts[normalizedHost] {
 				return conf, fmt.Errorf("host duplicate for %s", hostName)
 			}
+			normalizedHosts[normalizedHost] = true
 			host2HostTag[hostName] = hostTag
 		}
 	}
